@@ -158,9 +158,13 @@ def _call_raw(cgv, cgs, call, state):
     """executes one call; returns the object handed to the user"""
     k = call[0]
     if k == 'forward':
-        _, which, x = call
+        which, x = call[1], call[2]
         cg = cgv if which == 'v' else cgs
-        r = cg.function([UTPM(x.copy()) if x.ndim > 1 else _arg(state, 'x', x)])[0]
+        if len(call) > 3:          # evaluation in another number type (integer grid points, single precision data)
+            x = x.astype(call[3])
+            r = cg.function([UTPM(x.copy()) if x.ndim > 1 else x.copy()])[0]
+        else:
+            r = cg.function([UTPM(x.copy()) if x.ndim > 1 else _arg(state, 'x', x)])[0]
         state['last'] = which
         return r
     if k == 'pullback':
@@ -314,6 +318,23 @@ def run_case(ctx, case):
             else:
                 D, P = [(1, 1), (2, 2), (3, 1), (2, 3)][int(rng.integers(4))]
                 x = curve(D, P); hist.append(('forward', which, x)); fw = (which, x)
+        elif r < 0.36:
+            # an evaluation in another number type, directly followed by a driver: the driver's answer is the float64 one
+            dt = ['int64', 'int32', 'float32'][int(rng.integers(3))]
+            if rng.random() < 0.5:
+                x = point()
+            else:
+                x = curve(*[(1, 1), (2, 2)][int(rng.integers(2))])
+            if dt != 'float32':
+                x = np.round(2 * x)
+            hist.append(('forward', 'v' if rng.random() < 0.6 else 's', x, dt)); fw = None
+            d = ['jac_vec', 'jac_vec_s', 'gradient', 'jacobian', 'vec_jac', 'hess_vec'][int(rng.integers(6))]
+            if d in ('jac_vec', 'jac_vec_s', 'hess_vec'):
+                hist.append((d, point(), rng.normal(size=n)))
+            elif d == 'vec_jac':
+                hist.append((d, rng.normal(size=m), point()))
+            else:
+                hist.append((d, point()))
         elif r < 0.4:
             hist.append(('other',))
         elif r < 0.5 and hist:
